@@ -88,4 +88,4 @@ Example C14_example :
             geti 2 T ["099"%byte] = Ok (32767%Z, true) /\
             geti 2 T ["098"%byte] = Ok (0%Z, false) /\
             get T ["098"%byte] = Ok NotFound.
-Proof. vm_compute. eexists. repeat split. Qed.
+Proof. eexists. split; [vm_compute; reflexivity|]. vm_compute. repeat split. Qed.
